@@ -400,8 +400,10 @@ def run(chk, tier, seed):
     # ---- 4c. (thorough) a pilot-sized bulk: more than 512 releases pending in one loop
     #          iteration (the drain of the unschedule queue works in bulks of 512)
     if not quick:
+        # 576 cores, 600 single-core tasks: 24 wait; all running ones complete in one drain (> 512),
+        # the waiting ones are placed on what was released
         lay = R.Layout(9, 64, 0, 0, 0)
-        shapes = {'t%03d' % i: S(1, 1) for i in range(560)}
+        shapes = {'t%03d' % i: S(1, 1) for i in range(600)}
         script = [(1, ('arrive', sorted(shapes))), (5000, ('complete_all',))]
         rig = ScriptRig(lay, shapes, script=list(script), seed=0, cancelable=[], max_points=20000)
         traces.append((lay, rig.run()))
